@@ -125,6 +125,16 @@ def run(chk):
             vn = e.value_node
             shape_ok = False
             detail = norm(vn) if vn is not None else ""
+            if e.index == -1 and isinstance(vn, ast.Constant) or (e.index == -1 and vn is not None and norm(vn) in ("np.inf", "numpy.inf", "math.inf")):
+                # the conditional statement form `if <whole-sample condition>: H[-1] = c`: lowering the last p-value means
+                # c = 0 when H is the p-value history, c = +inf when H is the statistic
+                try:
+                    an = nnm.anatomy(idx, name)
+                    kind = an.store_kind.get(id(e.node))
+                except AnalysisError:
+                    kind = None
+                txt = norm(vn)
+                shape_ok = (kind == "history" and txt == "0") or (kind == "stat" and txt in ("np.inf", "numpy.inf", "math.inf"))
             if e.index == -1 and isinstance(vn, ast.IfExp):
                 same = f"{e.target}[-1]"
                 a, b = norm(vn.body), norm(vn.orelse)
